@@ -59,8 +59,11 @@ func vGenStream(kinds []int, hdrCRC bool) *vStreamInfo {
 	s.unkMsgNum = MesgNum(0xFF00 | uint16(vByte()&0x7F))
 	s.unkFldNum = 200 + vByte()&0x0F
 	// definitions (all little-endian except local 3)
-	// local 1: record: timestamp(253,uint32) heart_rate(3,uint8)
-	body.Write([]byte{0x41, 0, 0, 20, 0, 2, 253, 4, 0x86, 3, 1, 0x02})
+	// local 1: record: heart_rate(3,uint8) only — addressed by compressed-timestamp
+	// headers, so its timestamp comes from the compressed-timestamp rule
+	body.Write([]byte{0x41, 0, 0, 20, 0, 1, 3, 1, 0x02})
+	// local 8: record: timestamp(253,uint32) heart_rate(3,uint8)
+	body.Write([]byte{0x48, 0, 0, 20, 0, 2, 253, 4, 0x86, 3, 1, 0x02})
 	// local 2: unknown message, one field of 2 bytes
 	body.Write([]byte{0x42, 0, 0, byte(s.unkMsgNum), byte(s.unkMsgNum >> 8), 1, 0, 2, 0x84})
 	// local 3: record, big-endian: timestamp, unlisted field (3 bytes), heart_rate
@@ -73,10 +76,13 @@ func vGenStream(kinds []int, hdrCRC bool) *vStreamInfo {
 	body.Write([]byte{0x46, 0, 0, 34, 0, 2, 253, 4, 0x86, 5, 4, 0x86})
 	// local 7 (with developer data, defined after local 4): record: heart_rate + one developer field of 3 bytes
 	body.Write([]byte{0x67, 0, 0, 20, 0, 1, 3, 1, 0x02, 1, 5, 3, 0})
+	// every stream starts with one plain record, so that a reference
+	// timestamp exists before the n records of the sequence
+	kinds = append([]int{vKindRecord}, kinds...)
 	for _, k := range kinds {
 		switch k {
 		case vKindRecord:
-			body.Write([]byte{0x01, vByte(), vByte(), vByte(), 0x20, vByte()})
+			body.Write([]byte{0x08, vByte(), vByte(), vByte(), 0x20, vByte()})
 			s.nRecords++
 		case vKindUnknownMsg:
 			body.Write([]byte{0x02, vByte(), vByte()})
@@ -99,7 +105,7 @@ func vGenStream(kinds []int, hdrCRC bool) *vStreamInfo {
 			body.Write([]byte{0x80 | 0<<5 | vByte()&0x1F, 4, manu[0], manu[1]})
 		case vKindCompressed:
 			// local 1 is 0..3-addressable: compressed header, local type 1, offset arbitrary
-			body.Write([]byte{0x80 | 1<<5 | vByte()&0x1F, vByte(), vByte(), vByte(), 0x20, vByte()})
+			body.Write([]byte{0x80 | 1<<5 | vByte()&0x1F, vByte()})
 			s.nRecords++
 		case vKindLap:
 			body.Write([]byte{0x05, vByte(), vByte(), vByte(), 0x20, vByte(), vByte(), vByte(), vByte()})
